@@ -44,6 +44,26 @@ def check(ck):
             'value at its whole path')
     H.paths_to_dict_shape(ck, 'R18.5')
     H.make_path_dict_shape(ck, 'R18.5')
+    H.recursion_forwards(ck, 'R18.5', [
+        ('value_in_embedded_dict', 'library.dict_utils'),
+        ('get_path_list_from_dict', 'library.dict_utils'),
+        ('make_path_dict', 'library.dict_utils')])
+    ck.rule('R18.6', 'each row of a query is built from that row alone (the '
+            'list of found values is started afresh for every time), and '
+            'flattening keeps every key at every depth (only the top-level '
+            "'time' vector is set aside, by the caller)")
+    H.per_iteration_accumulators(
+        ck, 'R18.6', ck.fn('RAMEmitter.get_data', 'core.emitter'),
+        'the saved times')
+    for q in ('get_path_list_from_dict', 'value_in_embedded_dict'):
+        H.no_key_skipped(
+            ck, 'R18.6', ck.fn(q, 'library.dict_utils'),
+            '%s skips keys while walking the data: a variable with that '
+            'name is dropped at every nesting depth, not only the '
+            "top-level 'time' vector" % q)
+    n = H.setdefault_before_append(
+        ck, 'R18.6', ck.fn('value_in_embedded_dict', 'library.dict_utils'))
+    ck.floor('R18.6', n, 3, 'series creations in value_in_embedded_dict')
     from . import c14
     ck.shared('R18.6', 'reading the emitted data back rebuilds every '
               'container element by element: the list and dict '
